@@ -119,6 +119,23 @@ func (k *Keeper) OnChanOpenAck(
 		return err
 	}
 
+	// If a previous active channel exists and is CLOSED, this channel replaces it (the interchain account is reopened).
+	// OnChanOpenInit performs the same checks, but a handshake that was initiated before the previous active channel
+	// was set (or closed) never passed them, so they must be enforced here as well.
+	if previousChannelID, found := k.GetActiveChannelID(ctx, metadata.ControllerConnectionId, portID); found && previousChannelID != channelID {
+		previousChannel, found := k.channelKeeper.GetChannel(ctx, portID, previousChannelID)
+		if found && previousChannel.State == channeltypes.CLOSED {
+			if previousChannel.Ordering != channel.Ordering {
+				return errorsmod.Wrapf(channeltypes.ErrInvalidChannelOrdering, "order cannot change when reopening a channel expected %s, got %s", previousChannel.Ordering, channel.Ordering)
+			}
+
+			previousVersion, found := k.GetAppVersion(ctx, portID, previousChannelID)
+			if !found || !icatypes.IsPreviousMetadataEqual(previousVersion, metadata) {
+				return errorsmod.Wrap(icatypes.ErrInvalidVersion, "previous active channel metadata does not match provided version")
+			}
+		}
+	}
+
 	if strings.TrimSpace(metadata.Address) == "" {
 		return errorsmod.Wrap(icatypes.ErrInvalidAccountAddress, "interchain account address cannot be empty")
 	}
